@@ -73,7 +73,7 @@ def reparse(kind, text, flags):
         return ("internal:" + type(e).__name__, repr(e)[:200])
 
 
-CONTEXT = {"Field", "FragmentSpread", "InlineFragment", "SelectionSet", "Directive", "Argument", "ObjectField"}
+CONTEXT = {"Field", "FragmentSpread", "InlineFragment", "SelectionSet", "Directive", "Argument", "ObjectField", "VariableDefinition"}
 _WRAPPED, _WRAPPED_SEEN = [], set()
 
 
@@ -91,6 +91,8 @@ def context_reparse(kind, piece, flags):
         pre, post = "{ a ", "\n}"
     elif kind == "Argument":
         pre, post = "{ a(", "\n)}"
+    elif kind == "VariableDefinition":
+        pre, post = "query(", "\n){a}"
     else:
         pre, post = "", "\nscalar A"
     if kind == "ObjectField":
@@ -113,6 +115,16 @@ def context_reparse(kind, piece, flags):
         if len(doc.definitions) != 1 or doc.loc != (0, len(wrapped)):
             odd = "document"
         d0 = doc.definitions[0]
+        if kind == "VariableDefinition":
+            node = d0.variable_definitions[0]
+            ss = d0.selection_set
+            n_ = len(wrapped)
+            if not (isinstance(d0, A.OperationDefinition) and d0.operation == "query" and d0.name is None
+                    and len(d0.variable_definitions) == 1 and not d0.directives and d0.loc == (0, n_)
+                    and ss.loc == (n_ - 3, n_) and len(ss.selections) == 1 and ss.selections[0].loc == (n_ - 2, n_ - 1)
+                    and ss.selections[0].name.value == "a"):
+                odd = "query"
+            return ("ok", wrapped, node.to_dict(), len(pre), odd)
         if kind == "StringValue":
             node = d0.description
             if not (isinstance(d0, A.ScalarTypeDefinition) and d0.name.value == "A" and not d0.directives
